@@ -19,7 +19,7 @@
 From Coq Require Import List NArith Bool Arith String.
 From FV Require Import SlabConc.Skeleton SlabConc.Shapes SlabConc.ConcModel.
 From FV Require Import Slab.SlabModel Slab.SlabFail Slab.SlabInv Slab.SlabC01 SlabConc.ConcSlabModel SlabConc.ConcSlabState
-  SlabConc.ConcSlabSolo SlabConc.ConcSlabStep SlabConc.ConcSlabProofs SlabConc.ConcSlabCheck.
+  SlabConc.ConcSlabSolo SlabConc.ConcSlabStep SlabConc.ConcSlabProofs SlabConc.ConcSlabCheck SlabConc.ConcSlabSoloRun.
 From FV Require Import Gen.SlabSkeleton.
 Import ListNotations.
 Open Scope list_scope.
@@ -46,6 +46,21 @@ Theorem C05_solo_call_is_sequential_step :
     = (st_of (step c s o), mkThr Idle rest [] ((res_of (step c s o), cbs_of (step c s o)) :: ou)).
 Proof. exact solo_run_is_step. Qed.
 Print Assumptions C05_solo_call_is_sequential_step.
+
+(* the same for the thread pool with its mutexes: from a state in which all mutexes are free, scheduling thread t alone
+   (at most 24 slots) executes its next call exactly as the sequential pool does, leaves all mutexes free and does not
+   touch any other thread.  (Every sequential history of C01-C04 is therefore an execution of this system.) *)
+Theorem C05_solo_schedule_is_sequential_step :
+  forall c g t o rest,
+    (forall l, lk g l = None) -> pc (thr g t) = Idle -> todo (thr g t) = o :: rest -> acc (thr g t) = [] ->
+    exists j, (j <= 24)%nat /\
+      let g' := crun c (repeat t j) g in
+      sh g' = st_of (step c (sh g) o)
+      /\ thr g' t = mkThr Idle rest [] ((res_of (step c (sh g) o), cbs_of (step c (sh g) o)) :: outs (thr g t))
+      /\ (forall l, lk g' l = None)
+      /\ (forall t', t' <> t -> thr g' t' = thr g t').
+Proof. exact solo_schedule_is_step. Qed.
+Print Assumptions C05_solo_schedule_is_sequential_step.
 
 (* ---- the reduction that justifies "one locked body = one step": in every interleaving, the micro-ops a thread
         has executed are accepted by the lock-discipline monitor of the control model (ConcModel.mrun) from "no lock
